@@ -288,4 +288,54 @@ theorem import_rejects_other_validator_set (nextVals : Nat → List Nat) (blockI
 example : verifyProofForLast (fun k => [[4], [4], [0, 1, 2, 3], [2, 3, 5]].getD k []) id 3 0
     [⟨2, 3, 3, 0⟩, ⟨3, 3, 3, 0⟩, ⟨5, 3, 3, 0⟩] = Res.reject := by decide
 
+
+/-! ### validator snapshots are values
+
+Verification against a snapshot depends on the list of validators it was created with and on
+nothing else — in the model by construction (snapshots are `List Nat` values; deriving a state and
+changing it produces new values).  The harness checks the real `ValidatorSnapshot` objects against
+that: membership recomputed from the addresses captured when the snapshot was created. -/
+
+/-- Against a non-empty validator list value: accepted iff all signers are members, none twice,
+    more than two thirds. -/
+theorem verifyAgainst_iff (vals keys : List Nat) (hne : 0 < vals.length) :
+    (∃ voted, verifyAgainst vals keys = Res.ok voted) ↔
+      ((∀ k ∈ keys, k ∈ vals) ∧ keys.Nodup ∧ 3 * keys.length > 2 * vals.length) := by
+  have h := import_certificate_designated_set (fun _ => vals) (fun _ => 0) 1 0 (by omega) hne
+    (keys.map (fun k => ({ key := k, height := 1, blockId := 0, round := 0 } : Sig)))
+  have e : verifyAgainst vals keys = verifyProofForLast (fun _ => vals) (fun _ => 0) 1 0
+      (keys.map (fun k => ({ key := k, height := 1, blockId := 0, round := 0 } : Sig))) := by
+    unfold verifyAgainst verifyProofForLast verifyBlock
+    simp only [Bool.false_eq_true, if_false, List.length_map]
+    have hl : ∀ (ks : List Nat) (vset : List Bool),
+        loop (signerIn vals 0 0 0) (ks.map (fun k => ({ key := k, height := 0, blockId := 0, round := 0 } : Sig))) vset =
+        loop (signerIn vals 1 0 0) (ks.map (fun k => ({ key := k, height := 1, blockId := 0, round := 0 } : Sig))) vset := by
+      intro ks
+      induction ks with
+      | nil => intro vset; rfl
+      | cons k ks ih =>
+        intro vset
+        simp only [List.map_cons, loop, signerIn, and_self, if_true]
+        cases hk : vals.findIdx? (· == k) with
+        | none => rfl
+        | some i =>
+          simp only
+          cases vset[i]? with
+          | none => rfl
+          | some b => cases b <;> simp [ih]
+    have hb : ((1 : Nat) == 0) = false := rfl
+    simp only [hb, Bool.false_eq_true, if_false, Nat.sub_self]
+    rw [hl]
+  rw [e, h]
+  simp only [List.mem_map, forall_exists_index, and_imp, forall_apply_eq_imp_iff₂, List.map_map,
+    List.length_map, and_true, Nat.sub_self]
+  constructor
+  · rintro ⟨h1, h2, h3⟩
+    exact ⟨h1, by simpa [Function.comp_def] using h2, h3⟩
+  · rintro ⟨h1, h2, h3⟩
+    exact ⟨h1, by simpa [Function.comp_def] using h2, h3⟩
+
+example : verifyAgainst [0, 1, 2, 3] [0, 1, 4] = Res.reject ∧ verifyAgainst [0, 1, 2, 3] [3, 1, 0] = Res.ok [true, true, false, true] := by
+  decide
+
 end Goloop.C05
